@@ -45,11 +45,11 @@ out.append('Each change compiles, passes the 427-test baseline, breaks the prope
            'VIOLATION, restores the tree and requires the demo to exit 0. "missed at first" entries led to a strengthening of the generator or of an oracle, described in the entry; all of them are '
            'caught by the quick checks as committed. Ten rounds of seeding produced them (several agents per round, two changes per agent; exact duplicates of an archived change were '
            'dropped, the same edit seen from a second property was kept under that property). `tools/all_seeds_par.sh` re-runs all of them on scratch copies of the repository: in the '
-           'last complete sweep (VERIF_SEED=0, 168 changes) 163 were caught as committed at that point; the other five led to (i) three families being made systematic instead of '
+           'sweep after round 9 (VERIF_SEED=0, 168 changes) 163 were caught as committed at that point; the other five led to (i) three families being made systematic instead of '
            'random, because the change was caught for most seeds only (a deterministic loop-structure probe in C04, tangents for collections mutable in the enclosing apply in every '
            'other jvp case of C07, a sweep of the CIRCULAR ConvTranspose alignment in C12), and (ii) two patches being re-generated because a later `fix:` commit had moved the lines '
            'they touch (the originals are kept as `patch_orig.diff`). Detection by a quick tier is a matter of the generated cases: a family that is random may miss a change for an '
-           'unlucky seed; the thorough tier multiplies the case counts.\n')
+           'unlucky seed; the thorough tier multiplies the case counts. A sweep with VERIF_SEED=1 then caught 167 of 168 (the one miss became the deterministic long-list probe of C04), and the final sweep after round 10 (VERIF_SEED=0, all 185 changes, checks as committed) caught all 185.\n')
 out.append('| change | property | how it is caught |')
 out.append('|---|---|---|')
 for m in sorted(glob.glob(os.path.join(HERE, 'seeded', '*', 'meta.json'))):
